@@ -106,7 +106,12 @@ func (a *setvarFn) Init(_ plugintypes.RuleMetadata, data string) error {
 
 func (a *setvarFn) Evaluate(r plugintypes.RuleMetadata, tx plugintypes.TransactionState) {
 	key := a.key.Expand(tx)
-	value := a.value.Expand(tx)
+	// No value is given when removing a variable (setvar:!tx.key) or when
+	// setting a flag (setvar:tx.key), which is documented to set it to 1.
+	value := "1"
+	if a.value != nil {
+		value = a.value.Expand(tx)
+	}
 	tx.DebugLogger().Debug().
 		Str("var_key", key).
 		Str("var_value", value).
